@@ -119,6 +119,9 @@ def prog_event(tid, o, i, fl, placement):
         elif base == 'auto_param':
             fn, plain_target = g['w'], g['w']
             codes = {g['w0'].__code__}
+        elif base == 'auto_param_method':
+            fn, plain_target = g['w'], g['w']
+            codes = {g['K'].w0.__code__}
         elif base == 'auto_hint':
             fn, plain_target = g['w'], g['w']
             codes = {g['w'].func.__code__}
